@@ -55,6 +55,34 @@ fn lerp(x0: &Rat, y0: &Rat, x1: &Rat, y1: &Rat, x: &Rat) -> Option<Rat> {
     Some(y0 + (y1 - y0) * (x - x0) / (x1 - x0))
 }
 
+/// largest slope (rate per unit utilisation) of any segment of the configured curve
+pub fn max_slope(c: &InterestRateConfig) -> Rat {
+    if c.curve_type == INTEREST_CURVE_LEGACY {
+        let opt = w(&c.optimal_utilization_rate);
+        let plateau = w(&c.plateau_interest_rate);
+        let maxr = w(&c.max_interest_rate);
+        if opt <= zero() || opt >= one() {
+            return zero();
+        }
+        return rmax(&(&plateau / &opt), &((&maxr - &plateau) / (one() - &opt)));
+    }
+    let rate = |r: u32| ru(r as u128) * ri(10) / u32max();
+    let util = |x: u32| ru(x as u128) / u32max();
+    let mut pts = vec![(zero(), rate(c.zero_util_rate))];
+    for p in c.points.iter().filter(|p| p.util != 0) {
+        pts.push((util(p.util), rate(p.rate)));
+    }
+    pts.push((one(), rate(c.hundred_util_rate)));
+    let mut s = zero();
+    for wn in pts.windows(2) {
+        let dx = &wn[1].0 - &wn[0].0;
+        if dx.is_positive() {
+            s = rmax(&s, &(abs(&(&wn[1].1 - &wn[0].1)) / dx));
+        }
+    }
+    s
+}
+
 pub struct RefAccrual {
     pub asv: Iv,
     pub lsv: Iv,
@@ -91,7 +119,12 @@ pub fn ref_accrue(b: &Bank, g: &MarginfiGroup, dt: i64) -> Option<RefAccrual> {
     // error model: every rate is the result of <= 8 truncating operations on values <= 16 (base
     // rate <= 10, fee multipliers small) -> rate error <= K ulps, K generous.
     let k = ri(64);
-    let rate_err = |mag: &Rat| (abs(mag) + one()) * &k * ulp();
+    // the interpolated base rate carries an error proportional to the local slope of the curve
+    // (breakpoints and the utilisation are themselves truncated to the 2^-48 grid)
+    let slope = max_slope(c);
+    let base_e = ulp() * ri(16) * (one() + &slope);
+    let fee_mult = one() + abs(&ins_r) + abs(&grp_r) + abs(&pf_rate) + abs(&u);
+    let rate_err = |mag: &Rat| (abs(mag) + one()) * &k * ulp() + &base_e * &fee_mult;
     let u_mag = abs(&u) + one();
     let lend_e = rate_err(&lend) * &u_mag;
     let borrow_e = rate_err(&borrow);
@@ -265,7 +298,9 @@ fn pyth_px(o: &OracleIn, cfg_key: &Pubkey, now: i64, max_age: u64, max_conf: &Ra
         ema: ri(ema as i128) * &sc * &mul,
         ema_kc: ru(ema_conf as u128) * &sc * &k,
         max_conf: max_conf.clone(),
-        e: ulp() * ri(4) + (ru(conf.max(ema_conf) as u128) * &sc + ri(3)) * ulp() + extra_e,
+        // conversions truncate once; the constants 2.12 and 0.05 are themselves truncated to the
+        // grid, so k*conf carries conf*ulp and the 5% cap carries price*ulp
+        e: ulp() * ri(4) + (ru(conf.max(ema_conf) as u128) * &sc + ri(3)) * ulp() + (ru(price.unsigned_abs().max(ema.unsigned_abs()) as u128) * &sc * &abs(&mul) + one()) * ulp() * ri(2) + extra_e,
         fixed: false,
     })
 }
@@ -293,7 +328,8 @@ fn swb_px(o: &OracleIn, cfg_key: &Pubkey, now: i64, max_age: u64, max_conf: &Rat
     let sc = one() / pow10(18);
     let p = ri(value) * &sc;
     let kc = ri(std_dev) * &sc * rq(196, 100);
-    Ok(RefPx { spot: p.clone(), spot_kc: kc.clone(), ema: p, ema_kc: kc, max_conf: max_conf.clone(), e: ulp() * ri(8) + abs(&(ri(std_dev) * &sc)) * ulp(), fixed: false })
+    let e = ulp() * ri(8) + abs(&(ri(std_dev) * &sc)) * ulp() + (abs(&p) + one()) * ulp() * ri(2);
+    Ok(RefPx { spot: p.clone(), spot_kc: kc.clone(), ema: p, ema_kc: kc, max_conf: max_conf.clone(), e, fixed: false })
 }
 
 /// Reference price of a bank from the oracle accounts presented with it.
